@@ -35,8 +35,8 @@ Sp == CASE SpaceSel = "tiny" ->   \* up to 2 manifests, every set of blobs, ever
              [ns |-> 0..2, bs |-> {MCBlobs, {"b1"}}, tg |-> "one"]
         [] SpaceSel = "all3" ->   \* up to 3 manifests, every set of blobs, every binding of two tags
              [ns |-> 0..3, bs |-> SUBSET MCBlobs, tg |-> "all"]
-        [] SpaceSel = "mix3" ->   \* 3 manifests, four sets of blobs, every binding of two tags
-             [ns |-> {3}, bs |-> {MCBlobs, {"b1", "b2"}, {"b2", "b3"}, {}}, tg |-> "all"]
+        [] SpaceSel = "mix3" ->   \* 3 manifests, three sets of blobs, every binding of two tags
+             [ns |-> {3}, bs |-> {MCBlobs, {"b1", "b2"}, {}}, tg |-> "all"]
         [] SpaceSel = "subj3" ->  \* 3 manifests, all blobs or one missing, few tags
              [ns |-> {3}, bs |-> {MCBlobs, {"b1", "b2"}}, tg |-> "few"]
         [] SpaceSel = "subj4" ->  \* 4 manifests: 7^4 = 2401 subject relations; all blobs or one missing, few tags
